@@ -4,6 +4,7 @@ import (
 	"bufio"
 	"fmt"
 	"os"
+	"strings"
 	"sync"
 	"time"
 )
@@ -134,6 +135,10 @@ func (ws *WritingState) SetExperimentStateLabel(timestamp time.Time, stateLabel 
 	defer ws.Unlock()
 	if !ws.Active {
 		return fmt.Errorf("cannot set experiment state label when writing is not active")
+	}
+	// Each label is one line "<unix nanoseconds>, <label>" of the experiment state file.
+	if strings.ContainsAny(stateLabel, "\r\n") {
+		return fmt.Errorf("experiment state label must be a single line, got %q", stateLabel)
 	}
 	return ws.setExperimentStateLabel(timestamp, stateLabel)
 }
